@@ -5,7 +5,7 @@ import itertools
 
 from ..program import AnalysisError, walk_local, dotted
 from ..analysis import Spec, src, class_const, const_value
-from ..rules import (ctext, strip_wrappers, kw, exists_form, cond_equiv, cond_branches, substitute_locals, canon, GWF, EXC, need_func, stores_to, is_const, eval_atom, eval_cond,
+from ..rules import (flow_canon, ctext, strip_wrappers, kw, exists_form, cond_equiv, cond_branches, substitute_locals, canon, GWF, EXC, need_func, stores_to, is_const, eval_atom, eval_cond,
                      UNKNOWN, parent_map, raise_class)
 from . import common
 from .c07 import _explore
@@ -28,7 +28,8 @@ def run(prog, an, rep):
     rep.assume('the value of the aggregate on concrete run lists (order of '
                'runs, groupby on non-adjacent branches) and eviction timing '
                'are not evaluated')
-    rep.run_rules(prog, an, [guarded_cache_writes, cache_trust,
+    rep.run_rules(prog, an, [guarded_cache_writes, slot_agreement,
+                             cache_trust,
                              branch_state_table, state_precedence,
                              unwanted_workflows, lru_rules])
 
@@ -174,6 +175,72 @@ def guarded_cache_writes(prog, an, rep):
                   'invalidated from %s' % callers)
 
 
+def _same_status(ck, cv):
+    """Is the slot named ck the one the status cv belongs to?  ck, cv:
+    canonical texts of the key of the slot and of the value stored."""
+    try:
+        k = ast.parse(ck, mode='eval').body
+        v = ast.parse(cv, mode='eval').body
+    except SyntaxError:
+        return False
+    # for key, status in d.items(): CACHE[key].set(., status)
+    if isinstance(k, ast.Call) and isinstance(v, ast.Call) and \
+            src(k.func) == 'key' and src(v.func) == 'value' and \
+            len(k.args) == len(v.args) == 1 and \
+            src(k.args[0]) == src(v.args[0]):
+        return True
+    # CACHE[status.key].set(., status)
+    if isinstance(k, ast.Attribute) and k.attr == 'key' and \
+            src(k.value) == src(v):
+        return True
+    if isinstance(v, ast.Call):
+        for w in v.keywords:
+            if w.arg is not None:
+                continue
+            # Status(**d) stored under d['key']
+            if isinstance(k, ast.Subscript) and \
+                    is_const(k.slice, 'key') and \
+                    src(k.value) == src(w.value):
+                return True
+            # Status.get(**{'key': key, ...}) stored under key
+            if isinstance(w.value, ast.Dict):
+                for dk, dv in zip(w.value.keys, w.value.values):
+                    if is_const(dk, 'key') and src(dv) == src(k):
+                        return True
+        for w in v.keywords:
+            if w.arg == 'key' and src(w.value) == src(k):
+                return True
+    return False
+
+
+def slot_agreement(prog, an, rep):
+    """A status is stored in the slot of its own build key: a green status
+    of another key written there would answer for this key from then on."""
+    R = 'C17.ARG.slot-agreement'
+    sets = cache_calls(prog, 'set')
+    rep.floor('C17 BUILD_STATUS_CACHE[...].set sites', len(sets), 6)
+    for f, call, key in sets:
+        rep.evaluated()
+        if len(call.args) < 2:
+            rep.violation(R, f.qname, f.where(call), 'cache store without a '
+                          'status')
+            continue
+        kexpr = call.func.value
+        if isinstance(kexpr, ast.Name):
+            kexpr = substitute_locals(f, kexpr, depth=1)
+        kexpr = kexpr.slice if isinstance(kexpr, ast.Subscript) else None
+        ck = flow_canon(an, f, kexpr) if kexpr is not None else key
+        cv = flow_canon(an, f, call.args[1])
+        # loop variables by what they range over
+        ak = canon(f, kexpr) if kexpr is not None else key
+        av = canon(f, call.args[1])
+        rep.check(_same_status(ck, cv) or _same_status(ak, av), R, f.qname + ': the slot is that of '
+                  'the status stored', f.where(call),
+                  'BUILD_STATUS_CACHE[%s].set(., %s): the status stored is '
+                  'not tied to the build key of the slot (slot %s, status '
+                  '%s)' % (key, src(call.args[1]), ck[:80], cv[:80]))
+
+
 def cache_trust(prog, an, rep):
     R = 'C17.MPT.cache-trust'
     for q, host_pred in (
@@ -184,8 +251,12 @@ def cache_trust(prog, an, rep):
              lambda f, x: src(x.func) == 'BuildStatus.get')):
         f = need_func(an, q)
         c = an.cfg(f)
-        gets = [(call, k) for g, call, k in cache_calls(prog, 'get')
-                if g is f]
+        every = [(call, k) for g, call, k in cache_calls(prog, 'get')
+                 if g is f]
+        # the read of its own entry (other entries may be read where they
+        # are refreshed: guarded-cache-write looks at those)
+        gets = [(call, k) for call, k in every if k == f.params[2] and
+                call.args and src(call.args[0]) == f.params[1]] or every
         rep.check(len(gets) == 1 and gets[0][1] == f.params[2] and
                   src(gets[0][0].args[0]) == f.params[1], R,
                   f.qname + ': reads the entry of its own (key, revision)',
